@@ -26,7 +26,7 @@ def run(ctx):
         ctx.corr(hx, ["conc", "--runs", "150"], cases_name="conc.v")
     ctx.assumptions += [
         "model assumption (interface of C13): callbacks of a Variable/Set run synchronously, once per change, in registration order",
-        "guards of the theorems: the derived value is not written directly (it is itself a Variable/Set); an unsubscribe function of DerivedSet.InheritFrom is called at most once; compute functions do not depend on the current value; list arguments of set operations are duplicate-free (they are ds.Set values); EvictionState slots stay below the maximum of the slot type",
+        "guards of the theorems: the derived value is not written directly (it is itself a Variable/Set); an unsubscribe function of DerivedSet.InheritFrom is called at most once; compute functions do not depend on the current value; list arguments of set operations are duplicate-free (they are ds.Set values); EvictionState slots are modelled as unbounded N (Evict(max) of the slot type is a directed regression case, fix 2c4b512)",
         "concurrency: free-running runs with <= 4 goroutines and a quiescence barrier, compared with the defining function in Go; every run under a 20 s watchdog; directed schedules for the repaired D14b (blocking subscriber) and D14c (hook)",
     ]
 
